@@ -1,5 +1,4 @@
-(* C35 — property names: DecodeName (EncodeName k) = k, and what the second DecodeName of
-   validate/info.go handleProperties does to it. *)
+(* C35 — property names: DecodeName (EncodeName k) = k; the Info entries survive write + read. *)
 From Coq Require Import NArith List Bool Lia.
 From PV Require Import C35.Model C35.ProofsStr.
 Import ListNotations.
@@ -31,74 +30,56 @@ Proof.
     match goal with Hh : (c =? 35) = false |- _ => rewrite Hh end. now rewrite IH.
 Qed.
 
-Lemma no_hash_nul_spec : forall k, no_hash_nul k = true ->
-  Forall byte_nz k /\ Forall (fun c => (c =? 35) = false) k.
+Lemma name_bytes_spec : forall k, name_bytes k = true -> Forall byte_nz k.
 Proof.
-  unfold no_hash_nul. induction k as [|c r IH]; simpl; intros H; [split; constructor|].
-  apply andb_true_iff in H as [Hc Hr]. destruct (IH Hr) as [I1 I2].
-  apply andb_true_iff in Hc as [Hc H3]. apply andb_true_iff in Hc as [H1 H2].
-  apply negb_true_iff in H1, H2. apply N.ltb_lt in H3. apply N.eqb_neq in H2.
-  split; constructor; try assumption. now split.
-Qed.
-
-Lemma decode_plain : forall k, no_hash_nul k = true -> decode_name k = Some k.
-Proof.
-  intros k H. destruct (no_hash_nul_spec _ H) as [H1 H2]. clear H.
-  induction k as [|c r IH]; [reflexivity|].
-  inversion H1 as [|? ? [_ Hz] Hr1]; inversion H2 as [|? ? Hh Hr2]; subst.
-  cbn [decode_name]. apply N.eqb_neq in Hz. rewrite Hz, Hh. now rewrite IH.
-Qed.
-
-Lemma encode_regular : forall k, regular_name k = true -> encode_name k = k.
-Proof.
-  unfold regular_name. induction k as [|c r IH]; simpl; intros H; [reflexivity|].
-  apply andb_true_iff in H as [Hc Hr]. apply negb_true_iff in Hc. rewrite Hc. now rewrite IH.
+  unfold name_bytes. induction k as [|c r IH]; simpl; intros H; [constructor|].
+  apply andb_true_iff in H as [Hc Hr]. apply andb_true_iff in Hc as [H1 H2].
+  apply negb_true_iff in H1. apply N.ltb_lt in H2. apply N.eqb_neq in H1.
+  constructor; [now split|now apply IH].
 Qed.
 
 (* invariant of the Info entries kept by the refinement *)
-Definition good_entry (strict : bool) (e : str * str) : Prop := wfname strict (fst e) = true /\ snd e <> [].
+Definition good_entry (e : str * str) : Prop := wfname (fst e) = true /\ snd e <> [].
 
-Lemma wfname_spec : forall strict k, wfname strict k = true ->
-  no_hash_nul k = true /\ std_key k = false /\ (strict = true -> regular_name k = true).
+Lemma wfname_spec : forall k, wfname k = true -> name_bytes k = true /\ std_key k = false.
 Proof.
-  intros strict k H. unfold wfname in H. apply andb_true_iff in H as [H H3]. apply andb_true_iff in H as [H1 H2].
-  apply negb_true_iff in H2. repeat split; try assumption. intros ->. assumption.
+  intros k H. unfold wfname in H. apply andb_true_iff in H as [H1 H2].
+  apply negb_true_iff in H2. now split.
 Qed.
 
-Lemma persist_info_id : forall strict i, msorted i -> Forall (good_entry strict) i -> persist_info i = i.
+Lemma persist_info_id : forall i, msorted i -> Forall good_entry i -> persist_info i = i.
 Proof.
-  intros strict. induction i as [|[k v] r IH]; intros Hs Hg; [reflexivity|].
+  induction i as [|[k v] r IH]; intros Hs Hg; [reflexivity|].
   inversion Hg as [|? ? [Hk _] Hr]; subst. destruct Hs as [Hlt Hs]. simpl in Hk.
-  destruct (wfname_spec _ _ Hk) as [Hn _]. destruct (no_hash_nul_spec _ Hn) as [Hb _].
+  destruct (wfname_spec _ Hk) as [Hn _]. pose proof (name_bytes_spec _ Hn) as Hb.
   simpl. rewrite (decode_encode_name _ Hb). rewrite (IH Hs Hr). now apply m_set_head.
 Qed.
 
-Lemma props_read_id : forall strict i, msorted i -> Forall (good_entry strict) i -> props_read i = Some i.
+Lemma props_read_id : forall i, msorted i -> Forall good_entry i -> props_read i = i.
 Proof.
-  intros strict. induction i as [|[k v] r IH]; intros Hs Hg; [reflexivity|].
+  induction i as [|[k v] r IH]; intros Hs Hg; [reflexivity|].
   inversion Hg as [|? ? [Hk Hv] Hr]; subst. destruct Hs as [Hlt Hs]. simpl in Hk, Hv.
-  destruct (wfname_spec _ _ Hk) as [Hn [Hstd _]].
+  destruct (wfname_spec _ Hk) as [Hn Hstd].
   simpl. rewrite (IH Hs Hr), Hstd. destruct v as [|c v]; [congruence|].
-  rewrite (decode_plain _ Hn). now rewrite m_set_head.
+  now rewrite m_set_head.
 Qed.
 
-(* removeAllProperties: delete(d, EncodeName(k)) for every listed k *)
-Lemma fold_del_enc : forall (ps m : info), Forall (fun e => regular_name (fst e) = true) ps ->
-  fold_left (fun a kv => m_del (encode_name (fst kv)) a) ps m
+(* removeAllProperties: delete(d, k) for every listed k *)
+Lemma fold_del_all : forall (ps m : info),
+  fold_left (fun a kv => m_del (fst kv) a) ps m
   = filter (fun e => negb (existsb (fun kv => seqb (fst kv) (fst e)) ps)) m.
 Proof.
-  induction ps as [|p r IH]; simpl; intros m H.
+  induction ps as [|p r IH]; simpl; intros m.
   - symmetry. now apply filter_all_true.
-  - inversion H as [|? ? Hp Hr]; subst. rewrite IH by assumption. rewrite (encode_regular _ Hp).
+  - rewrite IH.
     unfold m_del. clear. induction m as [|e m IHm]; simpl; [reflexivity|].
     destruct (seqb (fst p) (fst e)); simpl; [apply IHm|].
     destruct (existsb (fun kv => seqb (fst kv) (fst e)) r); simpl; [apply IHm|]. f_equal. apply IHm.
 Qed.
 
-Lemma remove_all_regular : forall (i : info), Forall (fun e => regular_name (fst e) = true) i ->
-  fold_left (fun a kv => m_del (encode_name (fst kv)) a) i i = [].
+Lemma remove_all_props : forall (i : info), fold_left (fun a kv => m_del (fst kv) a) i i = [].
 Proof.
-  intros i H. rewrite fold_del_enc by assumption.
+  intros i. rewrite fold_del_all.
   assert (G : forall l : info, (forall e, In e l -> In e i) ->
               filter (fun e => negb (existsb (fun kv => seqb (fst kv) (fst e)) i)) l = []).
   { induction l as [|e l IHl]; simpl; intros Hin; [reflexivity|].
@@ -107,11 +88,3 @@ Proof.
     rewrite X. simpl. apply IHl. intros e' He'. apply Hin. now right. }
   apply G. auto.
 Qed.
-
-(* defects (ii) and (iii) on the model: the hypotheses cannot be dropped *)
-Lemma name_hash_refuted :
-  (* "A#B" -> the document no longer validates *)
-  props_read (persist_info [([65; 35; 66], [118])]) = None
-  (* "A#41" lists as "AA" *)
-  /\ props_read (persist_info [([65; 35; 52; 49], [118])]) = Some [([65; 65], [118])].
-Proof. vm_compute. split; reflexivity. Qed.
